@@ -157,7 +157,7 @@ SPEC = dict(
     level="exploration",
     rule="Transcoder level (public API makeNewTranscoderFor -> transcodeFrom/transcodeTo/canTranscodeTo, TranscodeFromStr/ToStr), each item one distinct case: "
          "(1) UTF-8 decode: every byte string of length <= 2, every 3-byte string (thorough: all 2^24; quick: first byte C0..FF or one of 00,41,7F,80,BF, all second and third bytes: 69 x 65536) plus, quick: every 4-byte string over the 32 boundary bytes of Unicode Table 3-7 (32^4) and every 4-byte "
-         "string with first byte F0/F1/F4/F5 and second byte from 6 boundary values (24 x 65536); thorough: every 4-byte string whose first byte is C0..FF (2^30) or one of "
+         "string with first byte F0/F1/F4/F5 and second byte from 6 boundary values (24 x 65536); every string of length 2..4 over those 32 boundary bytes whose first byte is >= 80, placed behind 31, 32, 33 and 40 ASCII characters in the same call (3.9 M strings; a deferred error must be raised by the next call); thorough: every 4-byte string whose first byte is C0..FF (2^30) or one of "
          "00,41,7F,80,BF (5 x 2^24); compared (units, bytesEaten, charSizes, exception) with a hand-written 9-state Table 3-7 DFA. "
          "(2) encode: EVERY Unicode scalar value (1,112,064) x 22 encodings: canTranscodeTo, transcodeTo (throw and replacement mode), decode(encode(c))==c, source blocks of 1..8 units "
          "ending inside the surrogate pair, output blocks of 1..8 bytes (quick: block variants and exception mode for every BMP code point and every 16th/64th supplementary one; thorough: all); reference = arithmetic for UTF-8/16/32, ICU ucnv (STOP callbacks, no fallbacks, round trip required) for code pages. "
@@ -191,6 +191,7 @@ SPEC = dict(
     runs=dict(
         quick=[
             _x("utf8-decode", "--space", "utf8dec", "--mode", "quick"),
+            _x("utf8-decode-after-decoded-characters", "--space", "utf8dec", "--mode", "padded"),
             _x("encode-every-scalar", "--space", "enc", "--encs", "all", "--thin", 16),
             _x("utf16-unit-pairs", "--space", "utf16", "--mode", "quick"),
             _x("ucs4-values", "--space", "ucs4", "--mode", "quick"),
@@ -207,6 +208,7 @@ SPEC = dict(
             _x("utf8-decode-2^30", "--space", "utf8dec", "--mode", "thorough", flavor="fast"),
             _x("utf8-decode-asan-slice", "--space", "utf8dec", "--mode", "slice4", "--slice", 128),
             _x("utf8-decode-asan-quick", "--space", "utf8dec", "--mode", "quick"),
+            _x("utf8-decode-after-decoded-characters", "--space", "utf8dec", "--mode", "padded"),
             _x("encode-every-scalar", "--space", "enc", "--encs", "all", "--thin", 1),
             _x("utf16-all-unit-pairs", "--space", "utf16", "--mode", "thorough", flavor="fast"),
             _x("utf16-unit-pairs-asan", "--space", "utf16", "--mode", "quick"),
